@@ -7,9 +7,14 @@ from harness import core, sexp
 
 TEXTS = ['', 'plain text', '{"a": 1}', '[1, 2, 3]', '{}', '[]', '{not json}', '[x', 'x]', ' {"a": 1}', '{"a": 1} ', '<html><body>x</body></html>',
          '<!DOCTYPE html PUBLIC "-//W3C//DTD XHTML 1.0 Strict//EN" "http://www.w3.org/TR/xhtml1/DTD/xhtml1-strict.dtd"><html>x</html>',
-         'x' * 170 + '<html>', 'é中 text', '{"é": "中"}', '{"page": "<html>x</html>", "id": 7}', '["<html>", "x"]', 'null', '42', '<HTML>upper</HTML>']
+         'x' * 170 + '<html>', 'é中 text', '{"é": "中"}', '{"page": "<html>x</html>", "id": 7}', '["<html>", "x"]', 'null', '42', '<HTML>upper</HTML>',
+         # serialized JSON longer than the 168-byte window of the HTML sniffing, compact and indented, objects and arrays
+         '{"items": [' + ', '.join('{"id": %d, "name": "item number %d"}' % (i, i) for i in range(12)) + ']}',
+         '[' + ', '.join(str(i) for i in range(120)) + ']',
+         '{\n  "a": "' + 'x' * 200 + '",\n  "b": [1, 2, 3]\n}', '[' + '"y", ' * 60 + '"z"]  ']
 ACCEPTS = [None, 'text/html', 'application/json', '*/*', 'text/html;q=0.2, application/json;q=0.9', 'image/png', 'application/json;q=0', '',
-           'text/*', 'text/html, application/xhtml+xml, application/xml;q=0.9, */*;q=0.8']
+           'text/*', 'text/html, application/xhtml+xml, application/xml;q=0.9, */*;q=0.8',
+           'application/xhtml+xml, text/html;q=0.9', 'application/pdf, text/html;q=0.8', 'application/xml,application/xhtml+xml,text/html;q=0.9,*/*;q=0.5']
 
 
 # ------------------------------------------------------------------ value specs <-> python values <-> model terms
